@@ -18,13 +18,14 @@ def record(exe, seed, bits, nb, endmode, env=None):
     return d, j, p
 
 
-def run_recover(exe, sim, img, bits, follow, journal=None, basefiles=None):
+def run_recover(exe, sim, img, bits, follow, journal=None, basefiles=None, sync_follow=False):
     """Materialise img, run the real recovery on it, return the parsed result (dict) and optionally the nested journal."""
     d = c.scratch('img')
     imgdir = os.path.join(d, 'db')
     sim.materialise(img, imgdir)
     out = os.path.join(d, 'out.json')
     env = {}
+    if sync_follow: env['CRASH_FOLLOW_SYNC'] = '1'
     if journal:
         env['CRASH_JOURNAL'] = os.path.join(d, 'nested.journal')
     p = c.sh([exe, 'recover', imgdir, out, str(bits), str(follow)], timeout=RECOVER_TIMEOUT, env=env)
@@ -85,8 +86,10 @@ class Plan:
         self.all_classes = not q
         self.torn_cuts = 2 if q else 4
         self.nested_every = (40 if q else 12) if prop in ('C03', 'C05') else 0
-        self.follow = prop in ('C05', 'C03')
-        self.follow_only = ('gap', 'max') if prop == 'C03' else None     # C03: process-crash images only, acknowledged follow-up writes must survive the next open
+        self.follow = prop in ('C05', 'C03', 'C02')
+        # C03: process-crash images only; C02: torn tails (a reused log must not swallow the synced writes that follow)
+        self.follow_only = ('gap', 'max') if prop == 'C03' else ('torn',) if prop == 'C02' else None
+        self.follow_sync = prop == 'C02'     # C03: process-crash images only, acknowledged follow-up writes must survive the next open
         self.model_images = prop in ('C02', 'C03', 'C17')
         self.gap_every = (1 if prop == 'C05' else 2 if q else 1) if prop in ('C03', 'C05') else 0
         self.point_every = 1                     # heavy workloads: only every n-th system call is a crash point
@@ -190,17 +193,21 @@ def explore(exe, journal_path, bits, plan, seed, stats):
     def key_of(img, follow, nest):
         return (tuple(sorted(img.ns.items())), tuple(sorted((i, img.lens.get(i, 0)) for i in set(img.ns.values()))), follow, nest)
 
+    prop_c05 = plan.follow and plan.follow_only is None
+
     def do(job):
         ei, ii, img = job
         follow = (follow_base + (ei // 2) % 2) if (plan.follow and (ei + ii) % 2 == 0) else 0
         if plan.follow and img.cls == 'gap': follow = follow_base + 1      # no flush in the follow-up: its writes stay in the log
         if plan.follow_only is not None and (img.cls not in plan.follow_only or (img.cls == 'max' and ei % 4 != 0)): follow = 0
+        if plan.follow_only == ('torn',) and img.cls == 'torn': follow = follow_base + 1 if (bits >> 11) & 1 else 0     # only with reuse_logs
+        if prop_c05 and (bits >> 11) & 1 and img.cls == 'max' and ei % 40 == 7: follow = follow_base + 2                     # big version edits after a reuse
         nest = bool(plan.nested_every and img.cls in ('max', 'min') and ei % plan.nested_every == 0 and ii < 2)
         if nest: follow = 0     # the journalled recovery must not contain follow-up writes
         k = key_of(img, follow, nest)
         if k in cache:
             return job, cache[k], True
-        res, nested = run_recover(exe, sim, img, bits, follow, journal=nest)
+        res, nested = run_recover(exe, sim, img, bits, follow, journal=nest, sync_follow=getattr(plan, 'follow_sync', False))
         nres = []
         if nested:
             nops, basefiles = nested
@@ -240,7 +247,7 @@ def explore(exe, journal_path, bits, plan, seed, stats):
 
 
 CFG = {
-    'C02': ['ModelSyncedSurvive', 'RecSynced', 'RecNothingElse'],
+    'C02': ['ModelSyncedSurvive', 'RecSynced', 'RecNothingElse', 'RecFollow'],
     'C03': ['ModelProcessCrash', 'RecAcked', 'RecNothingElse', 'RecAtomic', 'RecFollow'],
     'C04': ['RecAtomic', 'RecNothingElse'],
     'C05': ['RecOpenOk', 'RecPrefix', 'RecAtomic', 'RecAgain', 'RecFollow', 'RecNothingElse'],
